@@ -287,6 +287,12 @@ def runSection (r : Report) (s : Section) : Report := Id.run do
         else if lg == renderLog mr.log then r := r.addCover s!"outside-quantifier-{op.oq}-rolled-back"
         else r := r.mismatch s.idx l.idx s!"log={renderLog mc.log} or log={renderLog mr.log}" impl
         continue
+      -- a Transact[Ctx] of a connection made from the transaction's own session must refuse (errCantNestTx);
+      -- the harness marks the error of a nested body that ran
+      if (((kvStr l.obs "body" "") ++ (kvStr l.obs "ret" "")).splitOn "nestran").length > 1 then
+        r := r.mismatch s.idx l.idx "nested-transact-refused" impl
+        r := r.violation s.idx l.idx s!"clauses=[nested-transaction-refused] impl=[{impl}] op=[{joinSp l.op}]"
+        continue
       match parseObs l.obs with
       | none =>
         -- e.g. the call panicked out of Transact: not explainable by the model, and a violation of
